@@ -14,6 +14,7 @@ limitations under the License.
 package ttlcache
 
 import (
+	"math"
 	"sync/atomic"
 	"time"
 
@@ -93,6 +94,11 @@ func (c *Cache[V]) Set(key string, val V, ttl int64) {
 
 	if c.maxTTL > 0 && ttl > c.maxTTL {
 		ttl = c.maxTTL
+	}
+
+	// A TTL beyond what a time.Duration can express would overflow below
+	if ttl > math.MaxInt64/int64(time.Second) {
+		ttl = math.MaxInt64 / int64(time.Second)
 	}
 
 	exp := c.clock.Now().Add(time.Duration(ttl) * time.Second)
